@@ -57,7 +57,7 @@ impl Dimensionality {
 
     pub fn recip(mut self) -> Dimensionality {
         for (_, power) in self.dims.iter_mut() {
-            *power = power.saturating_neg();
+            *power = negatable(power.saturating_neg());
         }
         self
     }
@@ -65,7 +65,7 @@ impl Dimensionality {
     /// Exponents that do not fit saturate, see `checked_pow`.
     pub fn pow(mut self, exp: i64) -> Dimensionality {
         for (_, power) in self.dims.iter_mut() {
-            *power = power.saturating_mul(exp);
+            *power = negatable(power.saturating_mul(exp));
         }
         self
     }
@@ -73,7 +73,7 @@ impl Dimensionality {
     /// Like `pow`, but `None` if an exponent of the result does not fit.
     pub fn checked_pow(mut self, exp: i64) -> Option<Dimensionality> {
         for (_, power) in self.dims.iter_mut() {
-            *power = power.checked_mul(exp)?;
+            *power = power.checked_mul(exp).filter(|&p| p != i64::MIN)?;
         }
         Some(self)
     }
@@ -82,11 +82,16 @@ impl Dimensionality {
     pub fn checked_mul(&self, rhs: &Dimensionality) -> Option<Dimensionality> {
         for (unit, power) in &self.dims {
             if let Some(other) = rhs.dims.get(unit) {
-                power.checked_add(*other)?;
+                power.checked_add(*other).filter(|&p| p != i64::MIN)?;
             }
         }
         Some(self * rhs)
     }
+}
+
+/// Exponents stay clear of i64::MIN so that they can always be negated.
+fn negatable(power: i64) -> i64 {
+    power.max(-i64::MAX)
 }
 
 impl<'a> ops::Mul for &'a Dimensionality {
@@ -95,7 +100,7 @@ impl<'a> ops::Mul for &'a Dimensionality {
     fn mul(self, rhs: Self) -> Self::Output {
         // Exponents that do not fit saturate, see `checked_mul`.
         let dims = btree_merge(&self.dims, &rhs.dims, |a, b| {
-            let sum = a.saturating_add(*b);
+            let sum = negatable(a.saturating_add(*b));
             if sum != 0 {
                 Some(sum)
             } else {
